@@ -19,6 +19,10 @@ pub mod probes;
 
 #[cfg(feature = "c04")]
 pub mod c04_stack;
+#[cfg(feature = "c06")]
+pub mod c06_select;
+#[cfg(feature = "c07")]
+pub mod c07_pressure;
 #[cfg(feature = "c10")]
 pub mod c10_xo;
 #[cfg(feature = "c13")]
